@@ -7,6 +7,15 @@
             match self.size { Some(s) => self.val() >= 0 ==> self.val() < vstd::arithmetic::power2::pow2(s as nat), None => true }
         }
     }
+    /// `le(x)` (convert_le): the same size n = 8k, and the k bytes of x's low n bits read in the opposite order
+    pub open spec fn le_swapped(x: BigInt, r: BigInt) -> bool {
+        x.size is Some && r.size == x.size
+        && exists|b: Seq<u8>| b.len() == x.size->0 / 8 && #[trigger] low_bits_are(num_bigint::unsigned_le(b), x.val(), x.size->0 as nat) && r.val() == num_bigint::unsigned_be(b)
+    }
+    /// u is the unsigned value of the low n bits of v
+    pub open spec fn low_bits_are(u: int, v: int, n: nat) -> bool {
+        0 <= u < vstd::arithmetic::power2::pow2(n) && forall|j: nat| j < n ==> #[trigger] bit_of(u, j) == bit_of(v, j)
+    }
     impl<T: Into<num_bigint::BigInt>> FromSpecImpl<T> for BigInt {
         open spec fn obeys_from_spec() -> bool { <T as IntoSpec<num_bigint::BigInt>>::obeys_into_spec() }
         open spec fn from_spec(v: T) -> BigInt {
